@@ -38,6 +38,23 @@ pub fn dl(w: i128, with_units: bool) -> Vec<i128> {
             v.push(a + d);
         }
     }
+    // bit- and digit-boundary values in the interior: 2^k, 2^k +- 1 and 10^k, 10^k +- 1 (both signs). A narrowing cast
+    // (u32, i64, f64 mantissa) or a fast path keyed on the magnitude shows at such values, not at century anchors
+    for k in 0..=77u32 {
+        let p = 1i128 << k;
+        for d in [-1i128, 0, 1] {
+            v.push(p + d);
+            v.push(-(p + d));
+        }
+    }
+    let mut p10: i128 = 1;
+    for _ in 0..=23 {
+        for d in [-1i128, 0, 1] {
+            v.push(p10 + d);
+            v.push(-(p10 + d));
+        }
+        p10 *= 10;
+    }
     if with_units {
         for u in UNIT_NS {
             for k in [1i128, 2, 3, 7, 23, 24, 59, 60, 61, 999, 1000, 1001, 36524, 36525, 36526, 365_242, 3_652_425] {
